@@ -67,7 +67,6 @@ package flight12
 //@ ensures cookie-first: !cfg.InsecureSkipHelloVerify ==> result0 == 0 || result0 == Flight2 || result0 == Flight4b
 //@ ensures never-full-flight-unverified: !cfg.InsecureSkipHelloVerify ==> result0 != Flight4
 //@ ensures outcomes: result0 == 0 || result0 == Flight2 || result0 == Flight4 || result0 == Flight4b
-//@ ensures cookie-kept: sameSlice(state.Cookie, old(state.Cookie))
 //@ end
 
 // Cookie check (Flight2): the server moves on to the ServerHello flight (Flight4) only after the
@@ -79,5 +78,4 @@ package flight12
 //@ ensures outcomes: result0 == 0 || result0 == Flight2 || result0 == Flight4 || result0 == Flight4b
 //@ ensures cookie-verified: !cfg.InsecureSkipHelloVerify && result0 == Flight4 ==> called("ValidateHelloVerifyRequestResponse") && retErr("ValidateHelloVerifyRequestResponse", 0) == nil
 //@ ensures checked-against-issued-cookie: !cfg.InsecureSkipHelloVerify && result0 == Flight4 ==> sameSlice(argBytes("ValidateHelloVerifyRequestResponse", 2), state.Cookie)
-//@ ensures cookie-kept: sameSlice(state.Cookie, old(state.Cookie))
 //@ end
